@@ -56,7 +56,8 @@ def configs(tier, seed):
     if not quick:
         # two blocks with every byte symbolic: path count is the product over blocks (slice bounds,
         # bit widths); run under a wall budget, truncated runs are reported as inconclusive
-        cases += [(1, (1, 1, 2), (1, 1, 1), "uint32", (20, 24)), (1, (1, 1, 2), (2, 1, 1), "uint64", (12, 16, 20, 24))]
+        cases += [(1, (1, 1, 2), (1, 1, 1), "uint32", (20, 24)), (1, (1, 1, 2), (2, 1, 1), "uint64", (12, 16, 20, 24)),
+                  (1, (2, 1, 1), (1, 1, 2), "uint32", range(8, 25))]
     for C, shape, block, dtype, lens in cases:
         for L in lens:
             out.append(dict(harness="cseg", C=C, shape=list(shape), block=list(block), dtype=dtype, L=L,
@@ -81,7 +82,9 @@ def configs(tier, seed):
     for C, shape, plane, wm, hm in ((1, (2, 2, 1), "xy", 8, 8), (3, (1, 2, 2), "xz", 4, 4), (1, (1, 3, 2), "xz", 12, 3)) + (
             () if quick else ((3, (2, 2, 2), "xy", 6, 8), (1, (2, 3, 2), "xy", 12, 12))):
         out.append(dict(harness="jpeg", C=C, shape=list(shape), plane=plane, wmax=wm, hmax=hm, cost=4))
-    mut = [(1, (1, 1, 2), (2, 1, 1), "uint32"), (2, (1, 1, 1), (1, 1, 1), "uint32")]
+    mut = [(1, (1, 1, 2), (2, 1, 1), "uint32"), (2, (1, 1, 1), (1, 1, 1), "uint32"),
+           # non-cubic block on an anisotropic chunk, both ways round (block extent along x vs z)
+           (1, (1, 1, 2), (1, 1, 2), "uint32"), (1, (2, 1, 1), (1, 1, 2), "uint32")]
     if not quick:
         mut += [(1, (1, 1, 2), (1, 1, 1), "uint64"), (1, (1, 2, 2), (2, 2, 1), "uint64"), (2, (1, 1, 2), (2, 1, 1), "uint32")]
     for C, shape, block, dtype in mut:
